@@ -187,6 +187,13 @@ def test_full_sweeps(ctx, X, E):
         d = "R" if Y.to_right else "L"
         extra["first_direction"] = d
         extra["prep"] = False
+    elif (not plain) and rng.random() < 0.4:
+        # centre anywhere (sums / products of mixed-canonical operands keep their operands' flags): a plain canonicalise()
+        # must still decompose EVERY site of the sweep its flags announce
+        d = "R" if Y.to_right else "L"
+        extra["first_direction"] = d
+        extra["prep"] = False
+        run.count("full-sweeps:interior-centre-no-prep")
     else:
         lc.prep(Y, d)
     bonds = [int(b) for b in Y.bond_dims]
